@@ -56,31 +56,13 @@ def step : Sexp → Option Sexp
       let ops ← (← ops.toList?).mapM decOp
       let st := runOps tab ops ⟨rs, none⟩
       pure (list [atom (st.exc.getD "ok"), list (st.roots.map encItem)])
-  | list [atom "classify", t, post, roots] => do
-      let rs ← (← roots.toList?).mapM decItem
-      let t ← decStrs t
-      let post ← post.toBool?
-      pure (list [atom "classes",
-        ofBool (rs.any fun r => KnownOverwrite t post r.body),
-        ofBool (rs.any fun r => KnownStrayPost t post r.body),
-        ofBool (rs.any fun r => dfStaleItem tab r)])
   | list [atom "regflags", kw, roots] => do
       let rs ← (← roots.toList?).mapM decItem
       let kw ← decKw kw
-      let ridx := rs.any fun r =>
-        let ps := pragmasList r.body
-        let ps := match kw with
-          | some k => if k.isEmpty then ps else ps.filter (fun p => p.keyword.toLower == k.toLower)
-          | none => ps
-        match getMatching ps with
-        | none => false
-        | some pairs => KnownRegionIndex (sizeList r.body + pairs.length + 1) pairs r.body
-      pure (list [atom "flags", ofBool (rs.any fun r => KnownDupPragmas r.body), ofBool ridx])
+      pure (list [atom "flags", ofBool (rs.any fun r => KnownDupPragmas r.body), ofBool (rs.any (regRootBad kw))])
   | list [atom "matching", ps] => do
       let ps ← (← ps.toList?).mapM decPragma
-      match getMatching ps with
-      | none => pure (list [atom "error", atom "indexerror"])
-      | some prs => pure (list (atom "ok" :: prs.map fun pr => list [ofNat pr.1.id, ofNat pr.2.id]))
+      pure (list (atom "ok" :: (getMatching ps).map fun pr => list [ofNat pr.1.id, ofNat pr.2.id]))
   | _ => none
 
 def main : IO Unit := driverMain step
